@@ -303,6 +303,13 @@ func (ex *Exec) ropeIntrinsic(fn *ssa.Function, name string, args []Value) (Valu
 		panic(unsupported("RuneWidth of unknown rune"))
 	case "math.Round":
 		return FVal{"round", []Value{args[0]}}, true
+	case "math.Floor", "math.Ceil", "math.Trunc", "math.Abs":
+		return FVal{strings.ToLower(name[5:]), []Value{args[0]}}, true
+	case "math.Inf", "math.NaN", "math.Float64frombits":
+		return FVal{"free", nil}, true
+	case "math.IsNaN", "math.IsInf":
+		ex.stubsUsed["float:comparison free"]++
+		return ex.nondet(BoolSort), true
 	}
 	if fn.Pkg == ex.pkg {
 		switch fn.Name() {
